@@ -161,6 +161,8 @@ def run_batch(jobs, sim_dir=SIM_DIR, repo=REPO, workers=NCPU, stop_on_violation=
                         # a violation (or harness error) ends the batch: the runs still in flight are abandoned
                         cancel.set()
                         runner.kill_all_live()
+                if progress and rec["wall"] > 150:
+                    log(f"  (run {j['id']} ({j['kind']}) took {rec['wall']:.0f}s; predicted {runner.predicted_cost(j):.0f}s)")
                 if progress and done_n % 32 == 0:
                     log(f"  ... {done_n}/{len(order)} runs, {time.time() - t0:.0f}s")
                 if not stop:
